@@ -105,6 +105,10 @@ def rules : List SExp → Option SExp
       let cs ← cs.mapM parseConcl
       let r := Op.Consequent.trigger X.nanToNum01 posX (← en.asBool) (← d.asX) impl cs
       pure (list [ofBool r.1, list (r.2.map ofAct)])
+  | [atom "trigger-repaired", en, d, atom impl, list cs] => do
+      let cs ← cs.mapM parseConcl
+      let r := Op.Consequent.triggerRepaired X.nanToNum01 posX (← en.asBool) (← d.asX) impl cs
+      pure (list [ofBool r.1, list (r.2.map ofAct)])
   | [atom "consequent-load", list outs, list hs, list toks] => do
       let outs ← outs.mapM (fun o => match o with
         | list [atom n, list ts] => do pure (n, ← ts.mapM asAtom)
